@@ -47,6 +47,7 @@ class World(StackWorld):
         self.regs = {}  # proc -> registration id
         self.ops_left = 0
         self.user_futs = []
+        self.unreg_started = []
 
     def build(self):
         ch = self.run.ch
@@ -89,9 +90,12 @@ class World(StackWorld):
         # register the endpoints
         self.endpoints = {}
         from autobahn.wamp import types
+        self.reg_watch = {}
+        self.unregistered = set()
         for name, opts in (("plain", None), ("details", types.RegisterOptions(details_arg="details"))):
             proc = "com.example.%s" % name
-            self.fw.call(self, self.callee.register, self.make_endpoint(name), proc, opts)
+            f = self.fw.call(self, self.callee.register, self.make_endpoint(name), proc, opts)
+            self.reg_watch[name] = self.fw.watch(f)
         self.pump_all()
         if len(self.regs) != 2:
             raise HarnessError("registration failed: %r" % self.regs)
@@ -111,6 +115,13 @@ class World(StackWorld):
             rid = 900 + len(self.regs)
             self.regs[msg.procedure] = rid
             t.send(M.Registered(msg.request, rid))
+        elif isinstance(msg, M.Unregister):
+            # the callee withdraws a procedure: invocations already in flight still get their one terminal reply
+            for proc, rid in self.regs.items():
+                if rid == msg.registration:
+                    self.unregistered.add(proc)
+            self.run.probe("unregistered-while-invocations-may-be-pending")
+            t.send(M.Unregistered(msg.request))
 
     # --- endpoints ------------------------------------------------------------------------------------------------------
     def make_endpoint(self, name):
@@ -232,7 +243,22 @@ class World(StackWorld):
             acts.append((2.5, "resolve-endpoint-future", self.resolve_user))
         if up and self.order and self.ops_left > 0:
             acts.append((1.5, "interrupt", self.dealer_interrupt))
+        if up and self.order and len(self.unreg_started) < 2 and self.callee._session_id:
+            acts.append((0.7, "unregister", self.app_unregister))
         return acts
+
+    def app_unregister(self):
+        ch = self.run.ch
+        name = ch.pick([n for n in ("plain", "details") if n not in self.unreg_started], "unregister-which")
+        self.unreg_started.append(name)
+        st = self.reg_watch[name].state()
+        if st[0] != "ok":
+            return
+        self.run.log("app", "unregister", name)
+        try:
+            self.fw.call(self, st[1].unregister)
+        except Exception as e:  # noqa
+            self.run.log("unregister-raised", type(e).__name__)
 
     def dealer_invoke(self):
         ch = self.run.ch
@@ -246,6 +272,12 @@ class World(StackWorld):
         if inv.behaviour == "oversized" and self.limit is None:
             inv.behaviour = "value"
         inv.proc = ch.pick(("plain", "details"), "proc")
+        if "com.example." + inv.proc in self.unregistered:
+            other = "details" if inv.proc == "plain" else "plain"
+            if "com.example." + other in self.unregistered:
+                self.ops_left += 1
+                return  # nothing left to invoke
+            inv.proc = other
         inv.receive_progress = ch.flag("receive_progress", 0.4)
         a, k = ch.pick(ARGSETS, "args")
         inv.args = [inv.token] + list(a)
